@@ -352,6 +352,9 @@ pub struct Compiler<'a, E: quiver_core::effects::Effect> {
     // State management
     scopes: Vec<Scope>,
     local_count: usize,
+    /// Nesting depth of tuple literals whose fields are being compiled in the current function
+    /// body: inside one, the operand stack holds the tuple's earlier fields and flowing-value copies.
+    tuple_field_depth: usize,
     // Caller-owned; the caller keeps it after the compile (success or failure) to read the
     // type registry the semantic recorder's type-ids point into.
     program: &'a mut Program,
@@ -499,6 +502,7 @@ impl<'a, E: quiver_core::effects::Effect> Compiler<'a, E> {
             module_cache,
             scopes: vec![],
             local_count: 0,
+            tuple_field_depth: 0,
             program,
             resolver,
             current_package,
@@ -922,6 +926,21 @@ impl<'a, E: quiver_core::effects::Effect> Compiler<'a, E> {
     }
 
     fn compile_tuple(
+        &mut self,
+        name: ast::TupleName,
+        fields: Vec<ast::TupleField>,
+        ripple_context: Option<&RippleContext>,
+        expected: Option<usize>,
+    ) -> Result<(usize, Provenance), Error> {
+        // Restored on every path (the inner function returns early with `?`).
+        let depth = self.tuple_field_depth;
+        self.tuple_field_depth = depth + 1;
+        let result = self.compile_tuple_inner(name, fields, ripple_context, expected);
+        self.tuple_field_depth = depth;
+        result
+    }
+
+    fn compile_tuple_inner(
         &mut self,
         name: ast::TupleName,
         fields: Vec<ast::TupleField>,
@@ -1416,6 +1435,19 @@ impl<'a, E: quiver_core::effects::Effect> Compiler<'a, E> {
     /// expects (from a call argument's callee), used to infer the parameter of an un-annotated
     /// literal (`#{ $0 }`); it is ignored when the literal declares its own parameter type.
     fn compile_function(
+        &mut self,
+        function: ast::Function,
+        expected_parameter: Option<usize>,
+    ) -> Result<usize, Error> {
+        // A function body has its own frame and operand stack: a tail call in it is judged
+        // against the body's own tuple literals only. Restored on every path.
+        let depth = std::mem::replace(&mut self.tuple_field_depth, 0);
+        let result = self.compile_function_inner(function, expected_parameter);
+        self.tuple_field_depth = depth;
+        result
+    }
+
+    fn compile_function_inner(
         &mut self,
         function: ast::Function,
         expected_parameter: Option<usize>,
@@ -3718,12 +3750,14 @@ impl<'a, E: quiver_core::effects::Effect> Compiler<'a, E> {
             Some(ast::AccessSource::TailCall(identifier)) => {
                 // `^` / `^f` / `^f.field` - a tail call (TCO). The flowing value (chained, or the
                 // argument of an enclosing `Apply`) is the call argument, already on the stack.
+                self.reject_tail_call_in_tuple_field()?;
                 let ty =
                     self.compile_tail_call(identifier.as_deref(), &access.accessors, value_type)?;
                 Ok((ty, Provenance::Unknown))
             }
             Some(ast::AccessSource::TailCallRipple) => {
                 // `^~` - tail-call the flowing value (a nilary function) with nil.
+                self.reject_tail_call_in_tuple_field()?;
                 let ty = self.compile_ripple_tail_call(value_type)?;
                 Ok((ty, Provenance::Unknown))
             }
@@ -4620,6 +4654,21 @@ impl<'a, E: quiver_core::effects::Effect> Compiler<'a, E> {
                 found: quiver_core::format::format_type_by_id(&*self.program, target_type_id),
             })
         }
+    }
+
+    /// A tail call re-enters a function on the current frame, so nothing but its argument may be
+    /// on the operand stack. Inside a tuple literal's field (also through a block in the field)
+    /// the tuple's earlier fields and the flowing-value copies are still there: they would stay
+    /// under the result and the CALLER would build its own tuples from them (`[5, 3 f, 7]` gave
+    /// `[1, 0, 7]` for `f = #'int { | =0 => 0 | [1, [~, 1] __integer_subtract__ ^] }`). Such a
+    /// `^` is not in tail position — the tuple would still have to be built — so it is rejected.
+    fn reject_tail_call_in_tuple_field(&self) -> Result<(), Error> {
+        if self.tuple_field_depth > 0 {
+            return Err(Error::FeatureUnsupported(
+                "Tail call inside a tuple literal is not in tail position".to_string(),
+            ));
+        }
+        Ok(())
     }
 
     fn compile_tail_call(
